@@ -42,25 +42,9 @@ pub(crate) fn named(attr: &StructAttr, ts_name: Expr, fields: &FieldsNamed) -> R
         (0, 0) => quote!("{  }".to_owned()),
         (_, 0) => quote!(format!("{{ {} }}", #fields)),
         (0, 1) => quote! {{
-            let flattened = #flattened;
             // strip the outer parentheses, but only if they are one pair enclosing everything
-            // (`(A | B) & (C | D)` also starts with `(` and ends with `)`)
-            let mut depth = 0usize;
-            let enclosed = flattened.starts_with('(')
-                && flattened.ends_with(')')
-                && flattened.char_indices().all(|(i, c)| {
-                    match c {
-                        '(' => depth += 1,
-                        ')' => depth = depth.saturating_sub(1),
-                        _ => {}
-                    }
-                    depth > 0 || i + 1 == flattened.len()
-                });
-            if enclosed {
-                flattened[1..flattened.len() - 1].trim().to_owned()
-            } else {
-                flattened.trim().to_owned()
-            }
+            let flattened = #flattened;
+            #crate_rename::strip_enclosing_parens(&flattened).trim().to_owned()
         }},
         (0, _) => quote!(#flattened),
         (_, _) => quote!(format!("{{ {} }} & {}", #fields, #flattened)),
